@@ -168,14 +168,15 @@ func (z *reader) Reset(r io.Reader, dict []byte) error {
 		}
 	}
 
-	if z.decompressor == nil {
+	if z.decompressor == nil || haveDict {
+		// Only the inflater made by NewReaderDict honours a dictionary.
 		if haveDict {
 			z.decompressor = flate.NewReaderDict(z.r, dict)
 		} else {
 			z.decompressor = flate.NewReader(z.r)
 		}
 	} else {
-		z.decompressor.(flate.Resetter).Reset(z.r, dict)
+		z.decompressor.(flate.Resetter).Reset(z.r, nil)
 	}
 	z.digest = adler32.New()
 	return nil
